@@ -152,7 +152,7 @@ func (c11) Gen(r *rand.Rand, tier string, i int) any {
 	if !c12WellFormed(pt) || strings.Contains(fmt.Sprint(pt), "fn:Option") {
 		pt = t
 	}
-	shapes := []string{"copy", "pair", "list", "struct", "map", "member", "match-pair", "match-field", "copy-second-row", "cons", "join", "join-rev", "join-two-rows", "neg-prefix", "recursive-undeclared", "head-mode", "facts-and-rules"}
+	shapes := []string{"copy", "pair", "list", "struct", "map", "member", "match-pair", "match-field", "copy-second-row", "cons", "join", "join-rev", "join-two-rows", "neg-prefix", "recursive-undeclared", "head-mode", "facts-and-rules", "match-prefix", "type-named-names"}
 	shape := shapes[r.Intn(len(shapes))]
 	if shape == "head-mode" {
 		// the declared head predicate carries a mode: whatever the mode, a fact derived by a rule has to lie inside
@@ -181,6 +181,44 @@ func (c11) Gen(r *rand.Rand, tier string, i int) any {
 		}
 		if mode == "'+'" {
 			shape = "head-mode-input" // see known finding F43
+		}
+		return c11Case{Text: nb.String(), Shape: shape, Syntax: syntax}
+	}
+	if shape == "match-prefix" {
+		// :match_prefix(X, /p) narrows X to the name prefix type /p in the analysis; at run time it has to accept
+		// exactly the names of that type (/p/..., not /pq/...)
+		prefixes := []string{"/foo", "/foo/a", "/fo", "/bar", "/foo/ab"}
+		names := []string{"/foobar", "/foo/y", "/foo/a/z", "/foo/ab", "/foo/ab/c", "/foo/abc/d", "/fo/o", "/bar/x", "/foo", "/barx/y", "/fo", "/foo/a"}
+		pre := prefixes[r.Intn(len(prefixes))]
+		pt := pre
+		if r.Intn(3) == 0 {
+			pt = prefixes[r.Intn(len(prefixes))]
+		}
+		var nb strings.Builder
+		nb.WriteString("Decl q(X) bound [/name].\n")
+		for _, k := range r.Perm(len(names))[:3+r.Intn(len(names)-2)] {
+			fmt.Fprintf(&nb, "q(%s).\n", names[k])
+		}
+		fmt.Fprintf(&nb, "Decl p(X) bound [%s].\n", pt)
+		if r.Intn(2) == 0 {
+			fmt.Fprintf(&nb, "p(X) :- q(X), :match_prefix(X, %s).\n", pre)
+		} else {
+			// through a declared predicate that reflects the prefix type
+			fmt.Fprintf(&nb, "Decl is_pre(X) descr [reflects(%s)] bound [%s].\np(X) :- q(X), is_pre(X).\n", pre, pre)
+		}
+		return c11Case{Text: nb.String(), Shape: shape, Syntax: syntax}
+	}
+	if shape == "type-named-names" {
+		// names that start with the name of a built-in type (/time/x, /number/one): they are names, members of /name
+		// and /any only, also when a declaration mentions the built-in type
+		tps := []string{"/time", "/duration", "/name", "/number", "/string", "/float64", "/bytes", "/any"}
+		a, b := tps[r.Intn(len(tps))], tps[r.Intn(len(tps))]
+		var nb strings.Builder
+		fmt.Fprintf(&nb, "Decl q(X) bound [%s].\nq(%s/x).\n", a, []string{a, b}[r.Intn(2)])
+		if r.Intn(2) == 0 {
+			fmt.Fprintf(&nb, "Decl w(X) bound [/name].\nw(%s/y).\nDecl p(X) bound [%s].\np(X) :- w(X).\n", b, b)
+		} else {
+			fmt.Fprintf(&nb, "Decl w(X, Y) bound [%s, /name].\nDecl p(X) bound [%s].\np(X) :- w(_, X), :match_prefix(X, %s).\nw(%s/z, %s/z).\n", a, b, b, a, b)
 		}
 		return c11Case{Text: nb.String(), Shape: shape, Syntax: syntax}
 	}
@@ -483,7 +521,7 @@ func (c11) Run(cs any) core.Result {
 	tc := builtin.NewTypeCheckerFromDesugared(pi.Decls)
 	derived := 0
 	for _, f := range allFacts(store) {
-		if f.Predicate.Symbol != "p" && f.Predicate.Symbol != "q" && f.Predicate.Symbol != "out" {
+		if f.Predicate.Symbol != "p" && f.Predicate.Symbol != "q" && f.Predicate.Symbol != "out" && f.Predicate.Symbol != "w" {
 			continue
 		}
 		res.Ob("facts_judged", 1)
@@ -492,8 +530,11 @@ func (c11) Run(cs any) core.Result {
 		}
 		if err := tc.CheckTypeBounds(f); err != nil {
 			sig := "derived-fact-outside-bounds:" + c.Shape
-			if f.Predicate.Symbol == "q" {
+			if f.Predicate.Symbol == "q" || f.Predicate.Symbol == "w" {
 				sig = "base-fact-outside-bounds"
+				if c.Shape == "type-named-names" {
+					sig += ":" + c.Shape
+				}
 			}
 			// diagnosis: would the fact be inside the bounds if map key types were ignored?
 			// (conformance treats map keys contravariantly: known finding F7b of C12)
